@@ -205,6 +205,150 @@ def _flatten_orders(repo):
     return out
 
 
+REDUCERS = ('sum', 'mean', 'std', 'var', 'min', 'max', 'amin', 'amax', 'prod', 'median', 'average', 'any', 'all',
+            'argmax', 'argmin', 'count_nonzero', 'nansum', 'nanmean', 'nanstd', 'nanmin', 'nanmax', 'ptp',
+            'percentile', 'quantile')
+ALWAYS_SHAPED = ('cumsum', 'cumprod', 'dot', 'matmul', 'trace', 'diagonal', 'diag', 'transpose', 'swapaxes',
+                 'apply_along_axis', 'einsum', 'tensordot', 'outer', 'kron', 'argsort', 'sort', 'diff', 'gradient')
+SUBSCRIPT_OK = ('tol_history', 'params', 'diff_order', 'lam', 'num_eigens', 'method_kwargs')
+
+
+def _is_np(node):
+    return isinstance(node, ast.Name) and node.id in ('np', 'numpy')
+
+
+def _is_none(node):
+    return isinstance(node, ast.Constant) and node.value is None
+
+
+def _flat_form(node):
+    """x.ravel() / x.flatten() / np.ravel(x) with the default order"""
+    return _flat_call(node) is not None and _flat_call(node)[0] in ('ravel', 'flatten') \
+        and _order_of(node, 'reduction argument') == 'C'
+
+
+def _reduction_table(fn, where):
+    """[(site text, 'RedFlat' | 'RedShape')] for everything in fn whose value can depend on whether its
+    array argument is 1-D (direct branch) or 2-D (eigendecomposition branch)."""
+    table = []
+    # names that are 1-D on BOTH branches: boolean-mask selections  name = array[mask] / array[a < b]
+    flat_names = set()
+    for n in ast.walk(fn):
+        if isinstance(n, ast.Assign) and len(n.targets) == 1 and isinstance(n.targets[0], ast.Name) \
+                and isinstance(n.value, ast.Subscript) and isinstance(n.value.value, ast.Name) \
+                and isinstance(n.value.slice, (ast.Name, ast.Compare)) \
+                or isinstance(n, ast.Assign) and len(n.targets) == 1 and isinstance(n.targets[0], ast.Name) \
+                and isinstance(n.value, ast.Subscript) and isinstance(n.value.slice, ast.UnaryOp) \
+                and isinstance(n.value.slice.op, ast.Invert):
+            flat_names.add(n.targets[0].id)
+        elif isinstance(n, ast.Assign) and len(n.targets) == 1 and isinstance(n.targets[0], ast.Name) \
+                and _flat_call(n.value) is not None and _flat_form(n.value):
+            flat_names.add(n.targets[0].id)      # name = (...).ravel()
+    # parameters with default None that are only passed through (classified at the call sites)
+    pos = fn.args.args
+    none_params = {a.arg for a, dflt in zip(pos[len(pos) - len(fn.args.defaults):], fn.args.defaults) if _is_none(dflt)}
+    passthrough = fn.args.kwarg.arg if fn.args.kwarg else None
+
+    def add(node, cls):
+        table.append((f'{where}: {_u(node)[:70]}', cls))
+    for n in ast.walk(fn):
+        if isinstance(n, ast.Call):
+            f = n.func
+            name = f.attr if isinstance(f, ast.Attribute) else (f.id if isinstance(f, ast.Name) else None)
+            kws = {k.arg: k.value for k in n.keywords}
+            if name == '_safe_std':
+                add(n, 'RedFlat' if len(n.args) == 1 and set(kws) <= {'ddof'} else 'RedShape')
+                continue
+            if None in kws:
+                ok = (name in REDUCERS and not n.args and len(n.keywords) == 1 and isinstance(kws[None], ast.Name)
+                      and kws[None].id == passthrough)       # x.std(**kwargs): judged where the helper is called
+                add(n, 'RedFlat' if ok else 'RedShape')
+                continue
+            if name in ALWAYS_SHAPED and isinstance(f, ast.Attribute) and isinstance(f.value, ast.Name) \
+                    and f.value.id in flat_names and all(isinstance(a, ast.Name) and a.id in flat_names for a in n.args):
+                add(n, 'RedFlat')     # e.g. neg.dot(neg) on boolean-mask selections (1-D on both branches)
+                continue
+            if name == 'norm':
+                arr = n.args[0] if n.args else None
+                ordv = n.args[1] if len(n.args) > 1 else kws.get('ord')
+                axis = n.args[2] if len(n.args) > 2 else kws.get('axis')
+                if isinstance(ordv, ast.Name) and ordv.id in none_params:
+                    ordv = None          # passed through from a default-None parameter: judged at the call sites
+                plain = (ordv is None or _is_none(ordv)) and (axis is None or _is_none(axis))
+                add(n, 'RedFlat' if plain or (arr is not None and _flat_form(arr) and (axis is None or _is_none(axis)))
+                    else 'RedShape')
+            elif name == 'relative_difference':
+                ordv = n.args[2] if len(n.args) > 2 else kws.get('norm_order')
+                add(n, 'RedFlat' if ordv is None or _is_none(ordv) else 'RedShape')
+            elif name in REDUCERS:
+                is_np_fn = isinstance(f, ast.Attribute) and _is_np(f.value) or isinstance(f, ast.Name)
+                if isinstance(f, ast.Name) and name in ('min', 'max', 'any', 'all', 'sum'):
+                    # python builtins on scalars / tuples (e.g. min(iteration, 50)); on arrays they iterate rows
+                    add(n, 'RedFlat' if all(not isinstance(a, (ast.Name, ast.Attribute, ast.Subscript)) or len(n.args) > 1
+                                            for a in n.args) else 'RedShape')
+                    continue
+                extra = n.args[1:] if is_np_fn else n.args
+                axis = kws.get('axis')
+                if name in ('percentile', 'quantile'):
+                    extra = extra[1:]
+                add(n, 'RedFlat' if not extra and (axis is None or _is_none(axis)) and 'keepdims' not in kws
+                    else 'RedShape')
+            elif name in ALWAYS_SHAPED or name == 'len':
+                add(n, 'RedShape')
+        elif isinstance(n, ast.Attribute) and isinstance(n.ctx, ast.Load):
+            if n.attr in ('shape', 'ndim', 'T', 'flat'):
+                add(n, 'RedShape')
+            elif n.attr == 'size':
+                add(n, 'RedFlat')
+        elif isinstance(n, ast.BinOp) and isinstance(n.op, ast.MatMult):
+            add(n, 'RedShape')
+        elif isinstance(n, ast.Subscript) and isinstance(n.value, ast.Name) and n.value.id not in SUBSCRIPT_OK:
+            idx = n.slice
+            parts = idx.elts if isinstance(idx, ast.Tuple) else [idx]
+            lit = any(isinstance(q, ast.Slice) or isinstance(q, ast.Constant) and isinstance(q.value, int)
+                      or isinstance(q, ast.UnaryOp) and isinstance(q.operand, ast.Constant) for q in parts)
+            if lit:
+                add(n, 'RedShape')
+    return table
+
+
+def _host_reductions(repo):
+    """Reduction tables of every eigen-capable 2-D Whittaker host (methods of _Whittaker with a num_eigens
+    argument) and of the helpers they call (pybaselines._weighting.*, utils.relative_difference)."""
+    wh, _ = _parse('pybaselines/two_d/whittaker.py', repo)
+    cls = [n for n in ast.walk(wh) if isinstance(n, ast.ClassDef) and n.name == '_Whittaker']
+    if len(cls) != 1:
+        raise TranslateError('class _Whittaker not found in two_d/whittaker.py')
+    hosts = [f for f in cls[0].body if isinstance(f, ast.FunctionDef)
+             and 'num_eigens' in [a.arg for a in f.args.args + f.args.kwonlyargs]]
+    if len(hosts) < 7:
+        raise TranslateError(f'only {len(hosts)} eigen-capable hosts found')
+    table, helpers = [], set()
+    for f in hosts:
+        table += _reduction_table(f, f'two_d.whittaker.{f.name}')
+        for n in ast.walk(f):
+            if isinstance(n, ast.Call) and isinstance(n.func, ast.Attribute) and isinstance(n.func.value, ast.Name) \
+                    and n.func.value.id == '_weighting':
+                helpers.add(n.func.attr)
+    wt, _ = _parse('pybaselines/_weighting.py', repo)
+    funcs = {f.name: f for f in wt.body if isinstance(f, ast.FunctionDef)}
+    todo, seen = sorted(helpers), set()
+    while todo:
+        h = todo.pop(0)
+        if h in seen:
+            continue
+        seen.add(h)
+        if h not in funcs:
+            raise TranslateError(f'_weighting.{h} not found')
+        table += _reduction_table(funcs[h], f'_weighting.{h}')
+        for n in ast.walk(funcs[h]):     # helpers of helpers defined in the same module
+            if isinstance(n, ast.Call) and isinstance(n.func, ast.Name) and n.func.id in funcs:
+                todo.append(n.func.id)
+    ut, _ = _parse('pybaselines/utils.py', repo)
+    table += _reduction_table(_func(ut, 'relative_difference'), 'utils.relative_difference')
+    return [f.name for f in hosts], sorted(seen), table
+
+
 def _require_body(fn, where, expected, loose=()):
     """The WHOLE body (docstring and comments aside) must be exactly the expected statement
     sequence -- an added branch (e.g. a fast path before the pinned statements) is refused.
@@ -403,13 +547,14 @@ def gen_c20(repo):
     _sig(fn, 'PenalizedSystem2D.direct_solve', (['self', 'lhs', 'rhs'], []))
     _require_body(fn, 'PenalizedSystem2D.direct_solve', ['return spsolve(lhs, rhs)'])
     orders = _flatten_orders(repo)
+    hosts, helpers, reds = _host_reductions(repo)
     wd, wa, wo = _make_btwb(wt, 'WhittakerSystem2D', None)
     sd, sa, so = _make_btwb(st, 'SplineBasis2D', 'csr_object')
     rep, til = _penalty(wt)
     out = ['(* GENERATED by tools/gen_c20.py from pybaselines/two_d/_whittaker_utils.py and',
            '   pybaselines/two_d/_spline_utils.py -- do not edit. *)',
            'From Coq Require Import ZArith List Bool.',
-           'From PB Require Import C20.Model C20.Layout.',
+           'From PB Require Import C20.Model C20.Layout C20.Reductions.',
            'Import ListNotations.',
            'Open Scope Z_scope.',
            '',
@@ -419,7 +564,11 @@ def gen_c20(repo):
            '(* the order argument of every ravel / flatten / reshape call of pybaselines/two_d/*.py',
            '   (default = OrdC), file by file: ' + ', '.join(f'{os.path.basename(r)}:{len(o)}' for r, o in orders) + ' *)',
            'Definition gen_flatten_orders : list order :=\n  ['
-           + '; '.join(ORDERS[o] for _, os_ in orders for o in os_) + '].\n']
+           + '; '.join(ORDERS[o] for _, os_ in orders for o in os_) + '].\n',
+           '(* reductions / shape-dependent operations in the eigen-capable hosts ' + ', '.join(hosts),
+           '   and their helpers ' + ', '.join(helpers) + ', relative_difference; RedShape = depends on ndim:']
+    out += ['   ' + cl + '  ' + site.replace('*)', '* )').replace('(*', '( *') for site, cl in reds]
+    out += ['*)', 'Definition gen_reductions : list red :=\n  [' + '; '.join(cl for _, cl in reds) + '].\n']
     return '\n'.join(out)
 
 
